@@ -234,6 +234,7 @@ def update_locality(chk, prog):
             t1 = db.t['Topic'][1]
             ob.verify(ex, 'masked:dead-letter-policy', And(Implies(cleared, And(q0.isnull('dead_letter_topic_id'), q0.isnull('max_delivery_attempts'))),
                                                            Implies(Not(cleared), And(Not(q0.isnull('dead_letter_topic_id')), ex.eq(q0.v['dead_letter_topic_id'], t1.v['id']),
+                                                                                     t1.isnull('deleted_at'),      # an accepted policy names a live topic
                                                                                      ex.eq(q0.v['max_delivery_attempts'], Ite(ex.eq(att, 0), DATT, att))))), d)
         if 'filter' in paths:
             f = ex.getf(sub, 'Filter')
